@@ -59,6 +59,15 @@ def build_roots(kinds):
             tag = '%s%d' % (L, n)
             add('r_mas_%s' % tag, 'pub fn r_mas_%s(a: %s%d<i32>) -> %s%d<f64> { a.as_() }' % (tag, L, n, L, n), kind='mat_as', n=n, l=L)
             add('r_mnumcast_%s' % tag, 'pub fn r_mnumcast_%s(a: %s%d<i32>) -> Option<%s%d<u8>> { a.numcast() }' % (tag, L, n, L, n), kind='mat_numcast', n=n, l=L)
+    # matrices: Zero / One / is_zero, default tolerances; quaternion: default tolerances
+    for L in ('Rows', 'Cols'):
+        for n in (2, 3, 4):
+            tag = '%s%d' % (L, n); MI = '%s%d<i32>' % (L, n); MF = '%s%d<f32>' % (L, n)
+            add('r_mzero_%s' % tag, 'pub fn r_mzero_%s() -> %s { num_traits::Zero::zero() }' % (tag, MI), kind='mconst', c='zero', n=n, l=L)
+            add('r_mone_%s' % tag, 'pub fn r_mone_%s() -> %s { num_traits::One::one() }' % (tag, MI), kind='mconst', c='one', n=n, l=L)
+            add('r_mis_zero_%s' % tag, 'pub fn r_mis_zero_%s(a: %s) -> bool { num_traits::Zero::is_zero(&a) }' % (tag, MI), kind='mis_zero', n=n, l=L, max_paths=400)
+            add('r_mdefeps_%s' % tag, 'pub fn r_mdefeps_%s() -> (f32, f32, u32) { (<%s as approx::AbsDiffEq>::default_epsilon(), <%s as approx::RelativeEq>::default_max_relative(), <%s as approx::UlpsEq>::default_max_ulps()) }' % (tag, MF, MF, MF), kind='defeps')
+    add('r_qdefeps', 'pub fn r_qdefeps() -> (f32, f32, u32) { (<Quaternion<f32> as approx::AbsDiffEq>::default_epsilon(), <Quaternion<f32> as approx::RelativeEq>::default_max_relative(), <Quaternion<f32> as approx::UlpsEq>::default_max_ulps()) }', kind='defeps')
     for tr, f, ne in APPROX:
         extra = ', e: f32' if ne == 1 else (', e: f32, m: f32' if f == 'relative_eq' else ', e: f32, m: u32')
         call = 'e' if ne == 1 else 'e, m'
@@ -143,6 +152,14 @@ def run(ctx):
             elif k == 'const':
                 p = rs.only()
                 vec_eq(ctx, key, p.ret, [C(m['c'])] * vdim(m['K']), 'const: Zero/One', w)
+            elif k == 'mconst':
+                n = m['n']; p = rs.only()
+                E = [[C(0 if m['c'] == 'zero' or i != j else 1) for j in range(n)] for i in range(n)]
+                grid_eq(ctx, key, mgrid(p.ret, m['l'], n), E, 'const: matrix Zero is all zeros, One is the identity', w)
+            elif k == 'mis_zero':
+                n = m['n']; Mx = msyms('a0', m['l'], n)
+                preds = [eq(Mx[i][j], C(0)) for i in range(n) for j in range(n)]
+                all_or_none(ctx, key, rs, preds, 'paths: matrix is_zero iff all elements are zero', w, lambda p: truth(p.ret))
             elif k == 'is_zero':
                 a = vsyms('a0', m['K'])
                 preds = [eq(x, C(0)) for x in a]
@@ -188,7 +205,7 @@ def run(ctx):
             elif k == 'as_shape':
                 p = rs.only()
                 vec_eq(ctx, key, p.ret, [fn('tofloat', sym('a0.' + f)) for f in m['flds']], 'alg=: shape as_ converts each field by the scalar rule', w)
-        except AssertionError as e:
+        except (AssertionError, KeyError, ValueError, TypeError, IndexError, ZeroDivisionError, AttributeError) as e:
             ctx.ob(key + '/paths', False, 'path structure: the analysed function has the expected (branch-free / enumerated) shape', w, 'analysable', str(e))
     ctx.floor('roots analysed', done, len(roots))
     mint_rule(ctx)
@@ -259,7 +276,7 @@ def az_rule(ctx):
                 ctx.ob(key + '/flag', bad is None, 'paths: the overflow flag is true exactly when some element flag is true (%s flag assignments)' % ('all 2^n' if n <= 8 else 'none/singles/pairs/all'), w,
                        'OR of the element flags on %d assignments' % nass, 'element flags %s: %s' % (''.join('1' if b else '0' for b in bad[0]), bad[1]) if bad else '')
                 ctx.ob(key + '/value', vals_ok, 'alg=: wrapped value per element', w, [str(fn('ret:0', x)) for x in rr][:3], 'mismatch')
-        except AssertionError as e:
+        except (AssertionError, KeyError, ValueError, TypeError, IndexError, ZeroDivisionError, AttributeError) as e:
             ctx.ob(key + '/paths', False, 'path structure', w, 'analysable', str(e))
     ctx.floor('az cast roots analysed', done, 120 if ctx.tier == 'quick' else 156)
 
@@ -331,6 +348,6 @@ def mint_rule(ctx):
             elif k == 'qinto':
                 got = [str(x) for x in leaves(p.ret)]
                 ctx.ob(key, sorted(got) == sorted(['a0.x', 'a0.y', 'a0.z', 'a0.w']) and got.index('a0.w') in (0, 3), 'perm: quaternion -> mint quaternion keeps the vector part in order and w as the scalar', w, 'v=(x,y,z), s=w', got)
-        except AssertionError as e:
+        except (AssertionError, KeyError, ValueError, TypeError, IndexError, ZeroDivisionError, AttributeError) as e:
             ctx.ob(key + '/paths', False, 'branch-free conversion', w, 'one path', str(e))
     ctx.floor('mint conversion roots analysed', done, len(roots))
